@@ -254,10 +254,15 @@ class ModuleInfo:
         return "<module %s>" % self.name
 
 
+#: the model built last (one per run): lets small syntactic helpers resolve named constants without being handed the model
+CURRENT_MODEL = [None]
+
+
 class Model:
     PACKAGE = "cincoconfig"
 
     def __init__(self, repo: str):
+        CURRENT_MODEL[0] = self
         self.repo = os.path.abspath(repo)
         self.modules: Dict[str, ModuleInfo] = {}
         self.classes: Dict[str, ClassInfo] = {}
